@@ -25,7 +25,7 @@ theorem rinv_rmUpdateValue {st : St} (h : RInv st) {m : Nat} {old new : Val}
     RInv (rmUpdateValue st m old new).1 ∧
     ∀ σ ∈ st.specs, ∃ τ ∈ (rmUpdateValue st m old new).1.specs, τ.sid = σ.sid := by
   have hsid : SidOK (sp (rmUpdateValue st m old new).1) :=
-    sidOK_strans (strans_rmUpdateValue (strict := false) st m old new) h.sid
+    sidOK_strans (strans_rmUpdateValue st m old new) h.sid
   unfold rmUpdateValue at hsid ⊢
   cases hl : alookup st.v2r (m, old) with
   | none => exact ⟨h, fun σ hσ => ⟨σ, hσ, rfl⟩⟩
@@ -100,9 +100,9 @@ theorem setAttr_cases (kw : List String) (st : St) (o : Owner) (n : String) (v :
             | true => exact Or.inr (Or.inr (Or.inr ⟨ho, rfl, rfl⟩))
             | false => exact Or.inl ⟨_, rfl, Or.inr (Or.inr rfl)⟩
 
-/-- an assignment that succeeds keeps the invariant (also with a pending spec), removes no spec
-other than the one of the value the name held before when the name was its only reference, and –
-unless the name is a scalar cells – the parent now has a reference to `v` -/
+/-- an assignment that succeeds keeps the invariant (also with a pending spec), removes a spec
+only if afterwards no reference of the model is bound to the spec's value, and – unless the name is
+a scalar cells – the parent now has a reference to `v` -/
 theorem setAttr_ok_spec {kw : List String} {st : St} (h : RInvX ex st) {o : Owner} {n : String} {v : Val}
     (hok : (setAttr kw st o n v).2 = .ok ()) :
     RInvX ex (setAttr kw st o n v).1 ∧
@@ -110,18 +110,15 @@ theorem setAttr_ok_spec {kw : List String} {st : St} (h : RInvX ex st) {o : Owne
     ((o.space ≠ 0 ∧ cellsLookup st.cells o n = some true ∧ (setAttr kw st o n v).1 = st) ∨
       mkRef st o n v ∈ (setAttr kw st o n v).1.refs) ∧
     (∀ σ ∈ st.specs, σ ∉ (setAttr kw st o n v).1.specs →
-        ∃ prev, refLookup st.refs o n = some prev ∧ σ.group = o.model ∧ σ.val = prev.val ∧
-        alookup st.v2r (o.model, prev.val) = some [prev] ∧
-        ∀ r ∈ (setAttr kw st o n v).1.refs, r.owner.model = o.model → r.val = prev.val →
-          r = mkRef st o n v) := by
+        ∀ r ∈ (setAttr kw st o n v).1.refs, ¬ (r.owner.model = σ.group ∧ r.val = σ.val)) := by
   rcases setAttr_cases kw st o n v with ⟨e, he, _⟩ | ⟨prev, hl, he⟩ | ⟨hl, he⟩ | ⟨ho, hc, he⟩
   · rw [he] at hok; cases hok
   · rw [he]
     obtain ⟨c1, c2, c3, c4, c5⟩ := rmChangeRef_spec h v hl
     refine ⟨c2, c4, Or.inr (by rw [c3]; simp), ?_⟩
     intro σ hσ hgone
-    obtain ⟨g1, g2, g3, g4⟩ := c5 σ hσ hgone
-    exact ⟨prev, hl, g1, g2, g3, g4⟩
+    obtain ⟨g1, g2, g3⟩ := c5 σ hσ hgone
+    rw [g1, g2]; exact g3
   · rw [he]
     obtain ⟨n1, n2⟩ := refs_rmNewRef st o n v
     refine ⟨rinv_rmNewRef h v hl, by simp only; rw [n2]; exact fun τ hτ => hτ,
@@ -163,7 +160,7 @@ theorem rinv_withSpec {st : St} (h : RInv st) {m : Nat} {path : String} {csv : B
     (hc : canAdd (ioSpecs st.specs m path) sheet = true) :
     RInvX (· = mkSpec st m path csv sheet data) (withSpec st (mkSpec st m path csv sheet data)) := by
   have hsid : SidOK (sp (withSpec st (mkSpec st m path csv sheet data))) :=
-    sidOK_strans (STrans.add (strict := false) st.specs st.nextSid m path csv sheet data hc) h.sid
+    sidOK_strans (STrans.add st.specs st.nextSid m path csv sheet data hc) h.sid
   refine ⟨h.ridLt, h.refKey, h.entry, h.keys, ?_, ?_, ?_, hsid⟩
   · intro σ hσ hne
     have : σ ∈ insertSpec st.specs (mkSpec st m path csv sheet data) := hσ
@@ -205,19 +202,17 @@ theorem setAttr_error {kw : List String} {st : St} {o : Owner} {n : String} {v :
   · rw [h1] at he; cases he
 
 /-- `new_pandas` outside the triggers C18-cells-name and C18-double-spec keeps the invariant; a spec
-that existed before disappears only as in an assignment -/
+that existed before disappears only if no reference is bound to its value afterwards -/
 theorem newPandas_spec {kw : List String} {st : St} (h : RInv st) {o : Owner} {n path : String}
     {csv : Bool} {sheet : Option String} {data : Val}
     (hk1 : trigCellsName st (.newPandas o n path csv sheet data) = false)
     (hk2 : trigDoubleSpec st (.newPandas o n path csv sheet data) = false) :
     RInv (newPandas kw st o n path csv sheet data).1 ∧
     (∀ σ ∈ st.specs, σ ∉ (newPandas kw st o n path csv sheet data).1.specs →
-        ∃ prev, refLookup st.refs o n = some prev ∧ σ.group = o.model ∧ σ.val = prev.val ∧
-        alookup st.v2r (o.model, prev.val) = some [prev] ∧
-        ∀ r ∈ (newPandas kw st o n path csv sheet data).1.refs, r.owner.model = o.model →
-          r.val = prev.val → r = mkRef st o n data) := by
+        ∀ r ∈ (newPandas kw st o n path csv sheet data).1.refs,
+          ¬ (r.owner.model = σ.group ∧ r.val = σ.val)) := by
   have hsid : SidOK (sp (newPandas kw st o n path csv sheet data).1) :=
-    sidOK_strans (strans_newPandas (strict := false) kw st o n path csv sheet data) h.sid
+    sidOK_strans (strans_newPandas kw st o n path csv sheet data) h.sid
   have hk2' : getSpecFromValue st o.model data = none := by
     simpa [trigDoubleSpec] using hk2
   unfold newPandas at hsid ⊢
@@ -373,7 +368,7 @@ theorem delAttr_spec {st : St} (h : RInv st) {o : Owner} {n : String}
 theorem rinv_setSheet {st : St} (h : RInv st) (m : Nat) (v : Val) (sh : Option String) :
     RInv (setSheet st m v sh).1 ∧ ∀ σ ∈ st.specs, ∃ τ ∈ (setSheet st m v sh).1.specs, τ.sid = σ.sid := by
   have hsid : SidOK (sp (setSheet st m v sh).1) :=
-    sidOK_strans (strans_setSheet (strict := false) st m v sh (fun hh => by cases hh)) h.sid
+    sidOK_strans (strans_setSheet st m v sh) h.sid
   unfold setSheet at hsid ⊢
   split
   · exact ⟨h, fun σ hσ => ⟨σ, hσ, rfl⟩⟩
@@ -403,7 +398,7 @@ theorem rinv_setSheet {st : St} (h : RInv st) (m : Nat) (v : Val) (sh : Option S
 
 theorem rinv_delSpecOf {st : St} (h : RInv st) (m : Nat) (v : Val) : RInv (delSpecOf st m v).1 := by
   have hsid : SidOK (sp (delSpecOf st m v).1) :=
-    sidOK_strans (strans_delSpecOf (strict := false) st m v) h.sid
+    sidOK_strans (strans_delSpecOf st m v) h.sid
   unfold delSpecOf at hsid ⊢
   cases hg : getSpecFromValue st m v with
   | none => exact h
@@ -430,7 +425,7 @@ theorem foldl_delSpec_fields (l : List Spec) : ∀ st : St,
 
 theorem rinv_closeModel {st : St} (h : RInv st) (m : Nat) : RInv (closeModel st m).1 := by
   have hsid : SidOK (sp (closeModel st m).1) :=
-    sidOK_strans (strans_closeModel (strict := false) st m) h.sid
+    sidOK_strans (strans_closeModel st m) h.sid
   unfold closeModel rmDelAllSpec at hsid ⊢
   cases hs : rmSpecs st m with
   | error e => simp only [hs]; exact h
